@@ -9,11 +9,19 @@
     * the specification of get_by_schema on trees (`fill`) keeps exactly the schema's keys, replaces
       a present key by the filled value and leaves an absent key at its default
       (`schema_keys_kept`, `schema_present_replaced`, `schema_absent_default`).
-  Not proved: that the value the walker puts into slot `j` is the span `Spec.lookup` finds for path
-  `j` (the walker over the text is not modelled); that is the direct oracle of the check, slot by
-  slot, for get_many and get_many_unchecked.
+    * **the walker refines the single-path lookup** (`get_many_slots_are_single_lookups`): the walk of
+      `get_many_rec` / `get_many_keys` / `get_many_index` over the document (early return when the
+      counter is zero, children by key or by index, break when everything is found, the node's own
+      slots last) — modelled on the tree the text denotes (`Many.walk`) — leaves in slot `j`, for every
+      duplicate-free document and every set of paths, exactly what looking path `j` up alone finds
+      (`Many.lookJ`: first member with an equal key, n-th element); `Lemmas/WalkProof.lean`.
+  Not proved: completeness (the walker does not fail when every path resolves — the check's oracle
+  `fails-although-every-path-resolves`); the scanning of the text itself (`skip_one`, `parse_str`: C02,
+  C10) — the check compares the walker model with get_many and get_many_unchecked slot by slot, and
+  `lookJ` on the tree with `Spec.lookup` on the text.
 -/
 import SonicModel.Lemmas.ManyProof
+import SonicModel.Lemmas.WalkProof
 namespace Sonic.Thm.C11
 open Sonic Spec Many
 
@@ -43,7 +51,27 @@ theorem schema_present_replaced (sms dms : List (List UInt8 × Json)) (k : List 
 theorem schema_absent_default (sms dms : List (List UInt8 × Json)) (k : List UInt8) (h : lookupJ k dms = none) :
     lookupJ k (fillM sms dms) = lookupJ k sms := fillM_absent sms dms k h
 
+/-- **every slot of `get_many` is the single-path lookup** (duplicate-free document, any set of paths) -/
+theorem get_many_slots_are_single_lookups (paths : List (List Step)) (doc : Json) (hdf : DupFree doc)
+    (out : List (Option Json)) (h : getMany paths doc = some out) :
+    out.length = paths.length ∧ ∀ j : Nat, j < paths.length → out[j]? = some (lookJ doc (paths[j]?.getD [])) :=
+  getMany_refines_lookup paths doc hdf out h
+
+/-- … so repeated paths receive identical results -/
+theorem repeated_paths_get_identical_results (paths : List (List Step)) (doc : Json) (hdf : DupFree doc)
+    (out : List (Option Json)) (h : getMany paths doc = some out) (i j : Nat) (hi : i < paths.length) (hj : j < paths.length)
+    (heq : paths[i]? = paths[j]?) : out[i]? = out[j]? := by
+  obtain ⟨_, hs⟩ := getMany_refines_lookup paths doc hdf out h
+  rw [hs i hi, hs j hj, heq]
+
 /-! non-vacuity -/
+def sampleDoc : Json := .obj [([97], .arr [.num 0 1, .obj [([98], .null)]]), ([99], .bool true)]
+theorem sampleDoc_dupfree : DupFree sampleDoc := by
+  simp [sampleDoc, DupFree, DupFreeM, DupFreeL]
+example : getMany [[.key [97], .idx 1, .key [98]], [.key [97]], [.key [120]], [.key [97], .idx 1, .key [98]], []] sampleDoc =
+    some [some .null, some (.arr [.num 0 1, .obj [([98], .null)]]), none, some .null, some sampleDoc] := by
+  simp [getMany, build, buildFrom, Trie.insert, Trie.empty, updKid, walk, walkKids, walkMembers, walkElems, findKid, kindOf,
+    fillSlots, sampleDoc, Trie.kids, Trie.order]
 example : orderAt (build [[.key [97], .idx 1], [.key [97]], [.key [97], .idx 1], []]) [.key [97], .idx 1] = [0, 2] := by decide
 example : (fillSlots 7 [1, 1, 0] ([none, none, some 5], 2)) = ([some 7, some 7, some 5], 0) := by decide
 
